@@ -513,7 +513,7 @@ func (t *Task) WaitWake(why string) {
 // Wake makes a task parked in WaitWake runnable. Callable from the running task or the driver.
 func (t *Task) Wake() {
 	t.s.mu.Lock()
-	if t.state == stWaiting {
+	if t.state == stWaiting && t.cond == nil { // (a task waiting for a condition is not woken by hand)
 		t.state = stParked
 	}
 	t.s.mu.Unlock()
@@ -854,6 +854,7 @@ func (s *Sim) Run(main func()) {
 	horizon := s.start.Add(s.cfg.Horizon)
 	s.GoNode(0, "main", main)
 	idleSpins := 0
+	lockRetries := 0
 	sinceIdle := 0
 	idAtWindow := int64(0)
 	quantum := time.Millisecond
@@ -890,6 +891,7 @@ func (s *Sim) Run(main func()) {
 		if len(cs) == 0 && len(lockw) > 0 && idleSpins < 2 {
 			// safety net: a mutex released by un-instrumented code — let the waiters retry once
 			idleSpins++
+			lockRetries = len(lockw)
 			s.mu.Lock()
 			for _, w := range lockw {
 				w.state = stParked
@@ -911,6 +913,7 @@ func (s *Sim) Run(main func()) {
 				wait = nextT.Sub(now)
 			}
 			s.Idles++
+			lockRetries = 0
 			sinceIdle = 0
 			idAtWindow = s.nextID
 			quantum = time.Millisecond
@@ -922,7 +925,13 @@ func (s *Sim) Run(main func()) {
 			}
 			continue
 		}
-		idleSpins = 0
+		if lockRetries > 0 {
+			// steps taken by the retrying lock waiters are not progress: a retry that fails must
+			// not re-arm the safety net, or the run would never go idle and the clock would stand still
+			lockRetries--
+		} else {
+			idleSpins = 0
+		}
 		sinceIdle++
 		if sinceIdle >= spinSteps && s.nextID != idAtWindow {
 			// tasks were created in this window: the system is making progress, it just never idles
